@@ -256,6 +256,9 @@ fn emit_rta(ctx: &mut Ctx, policy: &str, tua: &Value, others: &[Value], b: u64, 
 }
 
 pub fn run_rta(ctx: &mut Ctx) {
+    let only: Option<Vec<String>> = ctx.arg("--policies").map(|p| p.split(',').map(|x| x.to_string()).collect());
+    let wanted = |p: &str| only.as_ref().map(|o| o.iter().any(|x| x == p)).unwrap_or(true);
+    let scale: usize = ctx.arg("--scale").and_then(|x| x.parse().ok()).unwrap_or(1);
     // enumerated core: 2 tasks, small parameters, every policy, several limits
     let tm = if ctx.thorough { 5 } else { 4 };
     let mut tasks = vec![];
@@ -273,6 +276,9 @@ pub fn run_rta(ctx: &mut Ctx) {
         for b in &tasks {
             for (pi, p) in POLICIES.iter().enumerate() {
                 idx += 1;
+                if !wanted(p) {
+                    continue;
+                }
                 // every (pair, policy) gets two of the limits; all limits are covered across the box
                 for k in 0..2 {
                     let lim = lims[((idx + k * 3 + pi as u64) % lims.len() as u64) as usize];
@@ -289,8 +295,11 @@ pub fn run_rta(ctx: &mut Ctx) {
     // seeded random: 1-4 tasks, jitter, bursts, arbitrary cost models where the API allows
     let n = if ctx.thorough { 40000 } else { 2500 };
     let (tmax, limmax) = if ctx.thorough { (30, 150) } else { (12, 60) };
-    for i in 0..n {
+    for i in 0..n * scale {
         let policy = POLICIES[ctx.rng.gen_range(0..9)];
+        if !wanted(policy) {
+            continue;
+        }
         let mut o = if i % 4 == 0 { gen::Opts::all(tmax) } else { gen::Opts::basic(tmax) };
         o.allow_zero = i % 8 == 0;
         let scalar_all = matches!(policy, "edf_np");
